@@ -755,4 +755,102 @@ theorem enhanceLabels_eq (f : Filter) (name : Str) {m : FMap} (hm : m.keys.Nodup
       = (m.filter (admits f name)).map (overrideBy labels) ++ labels.filter (notIn (m.filter (admits f name))) :=
   foldl_insertPair_eq labels hl _ (FMap.nodup_filter hm _)
 
+/-! ### the object pool and closing spans -/
+
+/-- every free map of the pool is empty -/
+def PoolClean (p : PState) : Prop := ∀ m ∈ p.pool, m = []
+
+/-- what a pooled step does to the subscriber state if `Labels::default()` were always a fresh empty map -/
+def baseStep (s : State) : POp → State
+  | .base op => step s op
+  | .close _ => s
+
+theorem baseStep_foldl (ops : List POp) (s : State) : ops.foldl baseStep s = run s (baseOps ops) := by
+  induction ops generalizing s with
+  | nil => rfl
+  | cons op ops ih =>
+    cases op with
+    | base o => simp [baseOps, baseStep, run, ih]
+    | close id => simp [baseOps, baseStep, ih]
+
+theorem pull_fst_of_clean {pool : List FMap} (h : ∀ m ∈ pool, m = []) : (pull pool).1 = [] := by
+  cases pool with
+  | nil => rfl
+  | cons m r => simpa [pull] using h m (by simp)
+
+theorem pull_snd_of_clean {pool : List FMap} (h : ∀ m ∈ pool, m = []) : ∀ m ∈ (pull pool).2, m = [] := by
+  cases pool with
+  | nil => intro m hm; simp [pull] at hm
+  | cons m r => intro x hx; exact h x (by simp [pull] at hx; simp [hx])
+
+theorem release_clean {pool : List FMap} (h : ∀ m ∈ pool, m = []) (x : FMap) : ∀ m ∈ release pool x, m = [] := by
+  intro m hm
+  simp only [release, List.mem_cons] at hm
+  rcases hm with hm | hm
+  · simpa [poolReset] using hm
+  · exact h m hm
+
+theorem newSpanLabelsIn_nil (fields : List (Str × Value)) (parent : Option FMap) :
+    newSpanLabelsIn [] fields parent = newSpanLabels fields parent := by
+  cases parent <;> rfl
+
+/-- one pooled step from a clean pool: the pool stays clean and the subscriber state moves exactly as in the
+    pool-free reading -/
+theorem pstep_of_clean {p : PState} (h : PoolClean p) (op : POp) :
+    PoolClean (pstep p op) ∧ (pstep p op).base = baseStep p.base op := by
+  cases op with
+  | base o =>
+    cases o with
+    | newSpan t par fields =>
+      refine ⟨pull_snd_of_clean h, ?_⟩
+      simp only [pstep, pOnNewSpan, baseStep, step, onNewSpan, pull_fst_of_clean h, newSpanLabelsIn_nil]
+    | record t id fields =>
+      refine ⟨release_clean (pull_snd_of_clean h) _, ?_⟩
+      simp only [pstep, pOnRecord, baseStep, step, onRecord, pull_fst_of_clean h]
+      rfl
+    | enter t id => exact ⟨h, rfl⟩
+    | exit t id => exact ⟨h, rfl⟩
+  | close id =>
+    refine ⟨?_, ?_⟩
+    · simp only [pstep, pClose]
+      split
+      · split
+        · exact h
+        · exact release_clean h _
+      · exact h
+    · simp only [pstep, pClose, baseStep]
+      split
+      · split <;> rfl
+      · rfl
+
+theorem prun_of_clean (ops : List POp) {p : PState} (h : PoolClean p) :
+    PoolClean (prun p ops) ∧ (prun p ops).base = ops.foldl baseStep p.base := by
+  induction ops generalizing p with
+  | nil => exact ⟨h, rfl⟩
+  | cons op ops ih =>
+    have h1 := pstep_of_clean h op
+    have h2 := ih h1.1
+    refine ⟨h2.1, ?_⟩
+    simp only [prun, List.foldl_cons] at h2 ⊢
+    rw [h2.2, h1.2]
+
+/-- dropping a whole subscriber (every open span's `Labels` goes back) leaves the pool clean -/
+theorem poolAfterDrop_clean {p : PState} (h : PoolClean p) : ∀ m ∈ poolAfterDrop p, m = [] := by
+  unfold poolAfterDrop
+  revert h
+  unfold PoolClean
+  generalize p.pool = pool
+  generalize List.range p.base.spans.length = l
+  intro h
+  induction l generalizing pool with
+  | nil => exact h
+  | cons i l ih =>
+    simp only [List.foldl_cons]
+    apply ih
+    split
+    · exact h
+    · split
+      · exact release_clean h _
+      · exact h
+
 end MetricsVerif.Tracing
